@@ -54,40 +54,11 @@ fn head_states(nvars: usize, prefix: &[PG], head: &PG, limit: usize) -> Head {
 /// with its walked value (variables created by the head become fresh hidden variables)
 fn continue_from(p: &Prog, state: &[T], rest: &[PG]) -> Option<Vec<String>> {
     let nvars = p.nvars;
-    let mut extra: Vec<usize> = vec![];
-    let renamed: Vec<T> = state.to_vec();
-    // second pass: collect the extra variables and rename them to nvars, nvars+1, …
-    fn collect(t: &T, extra: &mut Vec<usize>) {
-        match t {
-            T::Var(k) if *k >= 1000 => {
-                if !extra.contains(k) {
-                    extra.push(*k)
-                }
-            }
-            T::Cons(h, tl) => {
-                collect(h, extra);
-                collect(tl, extra)
-            }
-            T::Comp(_, a) => a.iter().for_each(|x| collect(x, extra)),
-            _ => {}
-        }
-    }
-    for t in &renamed {
-        collect(t, &mut extra);
-    }
-    let ex = extra.clone();
-    let renamed: Vec<T> = renamed
-        .iter()
-        .map(|t| {
-            t.subst(&|x| match x {
-                T::Var(k) if *k >= 1000 => Some(T::Var(nvars + ex.iter().position(|e| e == k).unwrap())),
-                _ => None,
-            })
-        })
-        .collect();
+    // hidden variables (`_` pattern variables included) keep their sharing between the observed terms
+    let (renamed, nextra) = crate::term::rename_hidden(state, nvars);
     let mut body = vec![PG::Eq(T::list((0..nvars).map(T::Var).collect()), T::list(renamed))];
     body.extend(rest.iter().cloned());
-    let q = Prog { nvars: nvars + extra.len(), nq: p.nq, take: 0, body, raw: false };
+    let q = Prog { nvars: nvars + nextra, nq: p.nq, take: 0, body, raw: false };
     match run_prog_b(&q, 6000) {
         RunOut::Answers(a, _) => Some(a.iter().map(|x| x.show("")).collect()),
         _ => None,
@@ -205,6 +176,9 @@ fn corpus() -> Vec<&'static str> {
         "prog 2 2 0 - eq v1 i5 conda 2 2 conde 2 1 eq v0 i1 1 eq v0 i2 conde 2 1 eq v1 i5 1 eq v1 i6 1 succ",
         "prog 1 1 0 - onceo 1 fail",
         "prog 2 1 4 - conda 1 2 call member 2 i1 v0 eq v1 i2",
+        // the head leaves a `_` pattern variable shared between two query variables (oracle false alarm of the
+        // thorough tier: the reference lost the sharing)
+        "prog 3 2 0 - onceo 2 call member 2 i1 v0 disj 2 eq v0 v1 eq v2 i2",
     ]
 }
 
